@@ -23,7 +23,7 @@ vars == <<st, act, res, xfers, hooks, extra, ghost, hist>>
 
 S0 == [InitState(Bal0, Params0, FALSE) EXCEPT !.nl = NL]
 InitAct == [a |-> "Init", users |-> UserSeq, na |-> NA, grid |-> D, bal0 |-> Bal0, params |-> Params0, listeners |-> NL]
-NoExtra == [panic |-> FALSE, nx |-> 0, validate_ok |-> TRUE, answer |-> <<>>]
+NoExtra == [panic |-> FALSE, nx |-> 0, validate_ok |-> TRUE, answer |-> <<>>, page |-> [total |-> 0, more |-> FALSE]]
 
 Init ==
   /\ st = S0
@@ -37,7 +37,7 @@ Init ==
 
 ExtraOf(s, m) ==
   IF m.a = "Block" THEN [NoExtra EXCEPT !.nx = Len(BlockRun(s, m.t).xs)]
-  ELSE IF m.a = "Query" THEN [NoExtra EXCEPT !.answer = QueryAnswer(s, m)]
+  ELSE IF m.a = "Query" THEN [NoExtra EXCEPT !.answer = QueryAnswer(s, m), !.page = PageInfo(s, m)]
   ELSE NoExtra
 
 StepRec(s, m, r) == [pre |-> s, act |-> m, res |-> [ok |-> r.ok, err |-> r.err], post |-> r.st,
